@@ -91,6 +91,12 @@ Proof.
   - apply slot_of_some. rewrite Esl. exact Hh.
 Qed.
 
+Theorem C04_index_returns_held_faults_proof : C04_index_returns_held_faults_stmt.
+Proof.
+  intros cfg pops k u o id' tok s' Hg s Hh Hc Hr Hstep.
+  exact (index_returns_held_Inv cfg s k u o id' tok s' (preachable_Inv_f cfg M04 pops (pgopf_M04 pops Hg)) Hh Hc Hr Hstep).
+Qed.
+
 Theorem C04_fk_deleted_not_returned_faults_proof : C04_fk_deleted_not_returned_faults_stmt.
 Proof.
   intros cfg pops h k' id' tok s' Hg Hnu s Hstep.
@@ -148,6 +154,7 @@ Example phistf_then :
 Proof. vm_compute. split; reflexivity. Qed.
 
 Print Assumptions C04_paths_unique_faults_proof.
+Print Assumptions C04_index_returns_held_faults_proof.
 Print Assumptions C04_paths_get_returns_held_faults_proof.
 Print Assumptions C04_fk_returns_held_faults_proof.
 Print Assumptions C04_join_returns_held_faults_proof.
